@@ -53,6 +53,8 @@ AConnect ==
     (\E id \in 1..MaxConns, target \in Targets :
           /\ id \notin DOMAIN cn /\ (id = 1 \/ 1 \in DOMAIN cn)
           /\ Connect(IF id = 1 THEN "c1" ELSE "c2", id, Cep(id), target, Mss) /\ Same)
+ASynDrop == \E id \in DOMAIN cn : drops < MaxDrops /\ SynDropped(id) /\ drops' = drops + 1 /\ UNCHANGED <<accepts, ops>>
+ASynResend == \E id \in DOMAIN cn : SynResent(id) /\ Same
 ASynArrive == \E id \in DOMAIN cn : SynArrive(id) /\ Same
 ASynAck == \E id \in DOMAIN cn : SynAck(id) /\ Same
 ASynAckArrive == \E id \in DOMAIN cn : SynAckArrive(id) /\ Same
@@ -112,7 +114,7 @@ ACancel ==
     (\E s \in MCSocks : ~sk[s].closed /\ (sk[s].rd # None \/ sk[s].wr # None) /\ CancelSock(s) /\ Op)
 AAborted ==
     (\E s \in MCSocks : Aborted(s) /\ Same)
-MCNext == AListen \/ ACloseAcc \/ ACancelAcc \/ AAcceptAborted \/ AAccept \/ AConnect \/ ASynArrive \/ ASynAck \/ ASynAckArrive \/ AAcceptDone \/ AConnectOk \/ ATick \/ ARefused \/ ASend \/ AEof \/ ADrop \/ AResend \/ AArrive \/ AAck \/ AWrite \/ AWriteDone \/ AWriteFailed \/ ARead \/ ASupersede \/ ALate \/ AReadData \/ AReadEof \/ AReady \/ AClose \/ ACancel \/ AAborted
+MCNext == AListen \/ ACloseAcc \/ ACancelAcc \/ AAcceptAborted \/ AAccept \/ AConnect \/ ASynDrop \/ ASynResend \/ ASynArrive \/ ASynAck \/ ASynAckArrive \/ AAcceptDone \/ AConnectOk \/ ATick \/ ARefused \/ ASend \/ AEof \/ ADrop \/ AResend \/ AArrive \/ AAck \/ AWrite \/ AWriteDone \/ AWriteFailed \/ ARead \/ ASupersede \/ ALate \/ AReadData \/ AReadEof \/ AReady \/ AClose \/ ACancel \/ AAborted
 MCSpec == MCInit /\ [][MCNext]_mvars
 
 \* C05: end of file is read only after every byte the peer put on the wire was delivered
